@@ -24,9 +24,10 @@ Theorem side (coq/c08, project Coercion.C08 on top of the frozen engine core coq
                 every epsilon-move, every handler and the stutter rule (AutoLemmas.product_run).
 Correspondence (every run): real engine traces (profiles persist / attempts / mixed, a poller calling Workstream.Plan every
   ~200 us) accepted by the automaton, and the three monitors evaluated on each of them inside Coq.
-Thorough tier only: "write failure is fatal" (harness/cmd/c08fatal): a child process whose vault fails the k-th Update* must
-  exit without releasing a waiter and without a further plugin invocation that depends on the failed write; k swept over all
-  writes of small plans.
+"Write failure is fatal" (harness/cmd/c08fatal): a child process whose vault fails the k-th Update* must exit without
+  releasing a waiter and without a further plugin invocation that depends on the failed write; k swept over all writes.
+  Every tier: a fixed slice of three small plans (a retried action, check groups, 2-action sequences; ~200 child runs, ~2 s);
+  thorough: also 120 generated plans (~8000 child runs).
 """
 import json
 import os
@@ -180,21 +181,24 @@ def run(ctx):
     extra["writes_total"] = sum(c["dist"].get("kinds", {}).get("W", 0) for c in res["live"])
     extra["plugin_invocations_total"] = sum(c["dist"].get("kinds", {}).get("S", 0) for c in res["live"])
 
+    # every tier: the fixed slice (3 small plans with a retried action, check groups, 2-action sequences; every k);
+    # thorough: also 120 generated plans
+    extra["write_failure_is_fatal_quick_slice"] = _fatal(ctx, ["-quick"], "cases_fatal_quick.jsonl", "fixed slice")
     if ctx.tier == "thorough":
-        extra["write_failure_is_fatal"] = _fatal(ctx)
+        n = int(os.environ.get("C08_FATAL_PLANS", "120"))
+        extra["write_failure_is_fatal"] = _fatal(ctx, ["-n", str(n)], "cases_fatal.jsonl", "%d generated plans" % n)
     _patch_evidence(ctx, extra)
 
 
-def _fatal(ctx):
-    """Thorough: a vault that fails the k-th Update* - the process must exit (log.Fatalf) without releasing a waiter and
-    without a plugin invocation that depends on the failed write."""
-    n = int(os.environ.get("C08_FATAL_PLANS", "120"))
-    cases = ctx.harness("c08fatal", ["-n", str(n)], out_name="cases_fatal.jsonl", timeout=3000)
+def _fatal(ctx, args, out_name, what):
+    """A vault that fails the k-th Update* - the process must exit (log.Fatalf) without releasing a waiter and without a
+    plugin invocation that depends on the failed write; k swept over every write of every plan, child processes."""
+    cases = ctx.harness("c08fatal", args, out_name=out_name, timeout=3000)
     if cases is None:
         return dict(ran=False)
     bad = [c for c in cases if c["observed"].get("verdict") != "ok"]
-    ctx.oblige("write failure is fatal: %d (plan, k) crash points, every one exits without a dependent invocation"
-               % len(cases), not bad)
+    ctx.oblige("write failure is fatal (%s): %d (plan, k) crash points, every one exits without a dependent invocation"
+               % (what, len(cases)), not bad)
     if bad:
         bad.sort(key=lambda c: (c["dist"].get("writes", 0), c["dist"].get("k", 0)))
         c = bad[0]
